@@ -146,23 +146,68 @@ def _map_plotdata(result, **kwargs):
     import atomica as at
 
     pd = at.PlotData(result)
-    pd.c17_fingerprint = fingerprint(result)
+    pd.c17_fingerprint = fingerprint(result[0] if isinstance(result, list) else result)  # the Ensemble passes the list of Results of one sample
     return pd
 
 
 def _reap():
-    """no process may outlive a case"""
-    n = 0
+    """no process may outlive a case.  Worker pools that a failed call left behind (sc.parallelize does not close its pool when a
+    task raises) are finalised by the collector while their workers are alive - killing workers of a live pool from outside would
+    leave the pool's queue lock held by a dead process and dead-lock the pool's own finaliser later."""
+    import gc
+
+    gc.collect()
+    left = 0
     for modname in ("multiprocessing", "multiprocess"):
         try:
             mod = __import__(modname)
         except ImportError:
             continue
         for c in mod.active_children():
-            n += 1
-            c.terminate()
-            c.join(5)
-    return n
+            c.join(10)
+            if c.is_alive():
+                left += 1
+                c.terminate()
+                c.join(5)
+    return left
+
+
+CALL_TIMEOUT = 300  # seconds; a sampled call normally takes 0.1-3 s
+
+
+class _CallTimeout(Exception):
+    pass
+
+
+def _guarded(fn):
+    """run fn() -> (value, None) or (None, (exception type name, repr, str)); no pool, worker or traceback frame survives.
+    A call that does not return within CALL_TIMEOUT (dead-locked pool) is reported as an error of type 'Timeout'."""
+    import signal
+    import threading
+    import traceback
+
+    def on_alarm(signum, frame):
+        raise _CallTimeout("no return after %d s" % CALL_TIMEOUT)
+
+    val = err = None
+    main = threading.current_thread() is threading.main_thread()
+    if main:
+        previous = signal.signal(signal.SIGALRM, on_alarm)
+        signal.alarm(CALL_TIMEOUT)
+    try:
+        val = fn()
+    except _CallTimeout as e:
+        err = ("Timeout", repr(e), str(e))
+        traceback.clear_frames(e.__traceback__)
+    except Exception as e:
+        err = (type(e).__name__, repr(e), str(e))
+        traceback.clear_frames(e.__traceback__)
+    finally:
+        if main:
+            signal.alarm(0)
+            signal.signal(signal.SIGALRM, previous)
+    _reap()
+    return val, err
 
 
 def _groups(fps):
@@ -257,14 +302,11 @@ def check(case):
 
     def run_project(nn, seed, parallel, nw):
         np.random.seed(seed)
-        try:
-            out = P.run_sampled_sims(ps, pg, ins, n_samples=nn, parallel=parallel, num_workers=nw)
-        except Exception as e:
-            if "Failed simulation after" in str(e):
+        out, err = _guarded(lambda: P.run_sampled_sims(ps, pg, ins, n_samples=nn, parallel=parallel, num_workers=nw))
+        if err:
+            if "Failed simulation after" in err[2]:
                 raise Discard("sampling exhausted its attempts on bad initial conditions")
-            raise Violation(ID, "call-raises/%s/%s" % ("parallel" if parallel else "serial", type(e).__name__), "run_sampled_sims(n_samples=%d, parallel=%s, num_workers=%s) raised %r (%s)" % (nn, parallel, nw, e, what))
-        finally:
-            _reap()
+            raise Violation(ID, "call-raises/%s/%s" % ("parallel" if parallel else "serial", err[0]), "run_sampled_sims(n_samples=%d, parallel=%s, num_workers=%s) raised %s (%s)" % (nn, parallel, nw, err[1], what))
         if not isinstance(out, list) or len(out) != nn or any((not isinstance(x, list)) or len(x) != 1 or not isinstance(x[0], at.Result) for x in out):
             raise Violation(ID, "wrong-shape/" + ("parallel" if parallel else "serial"), "expected a list of %d one-element lists of Result, got %r" % (nn, [type(x).__name__ for x in out][:5] if isinstance(out, list) else type(out)))
         return [fingerprint(x[0]) for x in out]
@@ -286,14 +328,11 @@ def check(case):
     elif ensemble:
         ens = at.Ensemble(mapping_function=_map_plotdata)
         np.random.seed(case["par_seed"])
-        try:
-            ens.run_sims(P, ps, pg, ins, n_samples=n, parallel=True)
-        except Exception as e:
-            if "Failed simulation after" in str(e):
+        _, err = _guarded(lambda: ens.run_sims(P, ps, pg, ins, n_samples=n, parallel=True))
+        if err:
+            if "Failed simulation after" in err[2]:
                 raise Discard("sampling exhausted its attempts on bad initial conditions")
-            raise Violation(ID, "call-raises/ensemble-parallel/%s" % type(e).__name__, "Ensemble.run_sims(n_samples=%d, parallel=True) raised %r (%s)" % (n, e, what))
-        finally:
-            _reap()
+            raise Violation(ID, "call-raises/ensemble-parallel/%s" % err[0], "Ensemble.run_sims(n_samples=%d, parallel=True) raised %s (%s)" % (n, err[1], what))
         if len(ens.samples) != n:
             raise Violation(ID, "wrong-shape/ensemble-parallel", "expected %d samples, got %d" % (n, len(ens.samples)))
         fps = [getattr(s, "c17_fingerprint", None) for s in ens.samples]
